@@ -3,6 +3,7 @@
 package cache
 
 import (
+	"bytes"
 	"compress/gzip"
 	"crypto/sha256"
 	"encoding/gob"
@@ -227,14 +228,17 @@ func (bc *BuildCache) deserialize(c Cacheable, srcModTime time.Time, r io.Reader
 	if err != nil {
 		return buildTime, false, err
 	}
-	defer func() {
-		// This close checks the gzip checksum but does not close the given reader.
-		if closeErr := zr.Close(); err == nil {
-			err = closeErr
-		}
-	}()
+	// Read the whole stream before decoding anything: the gzip checksum is only verified once the end of the
+	// stream has been reached, and a damaged entry must be rejected before its content is interpreted.
+	data, err := io.ReadAll(zr)
+	if closeErr := zr.Close(); err == nil {
+		err = closeErr
+	}
+	if err != nil {
+		return buildTime, false, err
+	}
 
-	gd := gob.NewDecoder(zr)
+	gd := gob.NewDecoder(bytes.NewReader(data))
 	if err := gd.Decode(&buildTime); err != nil {
 		return buildTime, false, err
 	}
